@@ -14,7 +14,7 @@
   * `reduced_state_sum` : `Tr_rem ρ = 2^{-m} Σ_{g ∈ G, g = 1 on rem} g|_kept`;
   * `reduced_state_eq_proj` : the theorem above.
 -/
-import GraphiqModel.Proofs.HilbertDimOverlap
+import GraphiqModel.Proofs.HilbertDimGroupSum
 import GraphiqModel.Proofs.TabSpecFactor
 namespace Graphiq
 namespace Hilbert
@@ -228,9 +228,9 @@ theorem local_sum_regroup (m : Nat) (t : Tab) (rem : List Nat) (hn : t.n = m + r
     rw [← hn]; exact h
   have inA : ∀ u : Nat, (STab.ofTab t).Spn (sprod t.n c (fun i => u.testBit i) k) := by
     intro u
-    exact sprod_spn_gens (STab.ofTab t) c k (fun i hi => (spn_of_grp t hr _).mp (hb.mem i hi)) _ k (Nat.le_refl _)
+    exact sprod_spn_gens' (STab.ofTab t) c k (fun i hi => (spn_of_grp t hr _).mp (hb.mem i hi)) _ k (Nat.le_refl _)
   have ex : ∀ u : Nat, ∃ s, s < 2 ^ t.n ∧ EqOn t.n (sprod t.n c (fun i => u.testBit i) k)
-      (mprod t.n (STab.ofTab t).row s t.n) := fun u => (spn_iff_mask (STab.ofTab t) ga _).1 (inA u)
+      (mprod t.n (STab.ofTab t).row s t.n) := fun u => (spn_iff_mask' (STab.ofTab t) ga _).1 (inA u)
   rw [← Finset.sum_filter]
   symm
   apply Finset.sum_bij (fun u _ => Classical.choose (ex u))
@@ -240,7 +240,7 @@ theorem local_sum_regroup (m : Nat) (t : Tab) (rem : List Nat) (hn : t.n = m + r
     refine ⟨h1, ?_⟩
     intro q hq
     have hid : IdOn rem (sprod t.n c (fun i => u.testBit i) k) := by
-      rw [← mprod_eq_sprod]; exact idOn_mprod t.n rem c k hb.idOn u
+      rw [← mprod_eq_sprod']; exact idOn_mprod t.n rem c k hb.idOn u
     have hqn := hlt q hq
     rw [← (h2.1 q hqn).1, ← (h2.1 q hqn).2]; exact hid q hq
   · intro u hu u' hu' e
@@ -252,7 +252,7 @@ theorem local_sum_regroup (m : Nat) (t : Tab) (rem : List Nat) (hn : t.n = m + r
       exact h2.trans h2''.symm
     have real1 := spn_real (STab.ofTab t) ga _ (inA u)
     have triv : EqOn t.n (sprod t.n c (fun i => xor (u.testBit i) (u'.testBit i)) k) PRow.one :=
-      ((sprod_mul_gens (STab.ofTab t) ga c k (fun i hi => (spn_of_grp t hr _).mp (hb.mem i hi)) _ _ k
+      ((sprod_mul_gens' (STab.ofTab t) ga c k (fun i hi => (spn_of_grp t hr _).mp (hb.mem i hi)) _ _ k
         (Nat.le_refl _)).symm.trans (mul_congr t.n _ _ _ _ (EqOn.refl _ _) e12.symm)).trans (mul_self t.n _ real1)
     have z := hb.indep _ triv
     apply Nat.eq_of_testBit_eq
@@ -270,9 +270,9 @@ theorem local_sum_regroup (m : Nat) (t : Tab) (rem : List Nat) (hn : t.n = m + r
     rw [Finset.mem_filter, Finset.mem_range] at hs
     obtain ⟨hs1, hs2⟩ := hs
     have hA : (STab.ofTab t).Spn (mprod t.n (STab.ofTab t).row s t.n) := by
-      rw [mprod_eq_sprod]; exact STab.sprod_spn (STab.ofTab t) _ t.n (Nat.le_refl _)
+      rw [mprod_eq_sprod']; exact STab.sprod_spn (STab.ofTab t) _ t.n (Nat.le_refl _)
     obtain ⟨S, hS⟩ := hb.span _ ((spn_of_grp t hr _).mpr hA) hs2
-    obtain ⟨u, hu, hbits⟩ := mask_of_subset k S
+    obtain ⟨u, hu, hbits⟩ := mask_of_subset' k S
     refine ⟨u, Finset.mem_range.mpr hu, ?_⟩
     obtain ⟨h1, h2⟩ := Classical.choose_spec (ex u)
     have e3 : EqOn t.n (sprod t.n c (fun i => u.testBit i) k) (sprod t.n c S k) := by
@@ -280,7 +280,7 @@ theorem local_sum_regroup (m : Nat) (t : Tab) (rem : List Nat) (hn : t.n = m + r
     exact mask_unique t hv hr _ s h1 hs1 (h2.symm.trans (e3.trans hS.symm))
   · intro u _
     obtain ⟨_, h2⟩ := Classical.choose_spec (ex u)
-    rw [mprod_eq_sprod]
+    rw [mprod_eq_sprod']
     exact cong _ _ h2
 
 /-! ### the reduced state is a scaled projector -/
